@@ -12,6 +12,8 @@ import Fpdec.Props.C10_Sites
   signal, and only when `p < q` and the scaled dividend does not fit an i128.
 * `rem_spec`, `checked_rem_spec`, `rem_dec_int_spec`, `rem_int_dec_spec`: `%`, `checked_rem` and the integer shapes with the
   zero-divisor (panic / `None`), zero-dividend and divisor-equals-one short cuts.
+  The integer operand ranges over the **whole** `i128` range in both positions, `i128::MIN` included (after the repair D14:
+  `i128::MIN % Dec!(-1)` used to panic because `%` on `(i128::MIN, -1)` does; `rem_min_by_minus_one`).
 * `tmod_is_the_remainder`: `A tmod B` is the unique `r` with `A = B·t + r`, `|r| < |B|`, `r` zero or of the sign of `A`.
 No function here takes a build-profile argument: every arithmetic site is `checked_*` or `%` (C20 for `%`).
 -/
@@ -20,7 +22,7 @@ namespace Fpdec.Props.C10
 open Fpdec Fpdec.Model
 
 theorem rem_core_spec (a : Int) (p : Nat) (b : Int) (q : Nat)
-    (ha : I128_MIN < a ∧ a ≤ I128_MAX) (hb : I128_MIN < b ∧ b ≤ I128_MAX) (hb0 : b ≠ 0) (hp : p ≤ 18) (hq : q ≤ 18) :
+    (ha : I128_MIN ≤ a ∧ a ≤ I128_MAX) (hb : I128_MIN ≤ b ∧ b ≤ I128_MAX) (hb0 : b ≠ 0) (hp : p ≤ 18) (hq : q ≤ 18) :
     Spec.allowedChecked
       (let m := max p q
        let A := a * (10 : Int) ^ (m - p)
@@ -38,17 +40,24 @@ theorem checked_rem_spec (x y : Dec) (hx : Dom x) (hy : Dom y) :
       (outOptPair (checkedOfChecked (eqZero y) (if eqZero y then .ok none else remDecDec x y))) = true :=
   Fpdec.checked_rem_spec x y hx hy
 
-theorem rem_dec_int_spec (x : Dec) (i : Int) (hx : Dom x) (hi : I128_MIN < i ∧ i ≤ I128_MAX) (hi0 : i ≠ 0) :
+theorem rem_dec_int_spec (x : Dec) (i : Int) (hx : Dom x) (hi : I128_MIN ≤ i ∧ i ≤ I128_MAX) (hi0 : i ≠ 0) :
     Spec.allowedChecked (Spec.rem x.coeff x.nfrac i 0) (outOptPair (remDecInt x i)) = true :=
   Fpdec.rem_dec_int_spec x i hx hi hi0
 
-theorem rem_int_dec_spec (i : Int) (y : Dec) (hy : Dom y) (hi : I128_MIN < i ∧ i ≤ I128_MAX) (hy0 : y.coeff ≠ 0) :
+theorem rem_int_dec_spec (i : Int) (y : Dec) (hy : Dom y) (hi : I128_MIN ≤ i ∧ i ≤ I128_MAX) (hy0 : y.coeff ≠ 0) :
     Spec.allowedChecked (Spec.rem i 0 y.coeff y.nfrac) (outOptPair (remIntDec i y)) = true :=
   Fpdec.rem_int_dec_spec i y hy hi hy0
 
 theorem tmod_is_the_remainder (A B r : Int) (hB : B ≠ 0) :
     r = A.tmod B ↔ (∃ t : Int, A = B * t + r) ∧ r.natAbs < B.natAbs ∧ (r = 0 ∨ (0 < r ∧ 0 < A) ∨ (r < 0 ∧ A < 0)) :=
   tmod_characterisation A B r hB
+
+/-- D14 (repaired): the integer dividend `i128::MIN` with a divisor whose coefficient is `-1` — remainder zero, no panic, also
+    when the dividend cannot be re-expressed with the divisor's fractional digits -/
+theorem rem_min_by_minus_one (q : Nat) (hq : q ≤ 18) :
+    remIntDec I128_MIN ⟨-1, q⟩ = .ok (some ⟨0, q⟩) := by
+  have : ∀ q : Nat, q ≤ 18 → remIntDec I128_MIN ⟨-1, q⟩ = .ok (some ⟨0, q⟩) := by decide
+  exact this q hq
 
 /-! ### non-vacuity -/
 example : remCore (-25) 1 7 0 = .ok (some ⟨-25, 1⟩) ∧ remCore I128_MAX 0 3 18 = .ok (some ⟨1, 18⟩) := by decide
